@@ -295,6 +295,11 @@ def units_B(tier):
             U.must_fail_twin(r, "vacuity.must_fail_twin", lambda: ST.unit_stream_cleanup(twin=True))
         return r
     us.append(("C08.entry_points.no_input_stream_left_behind", mks))
+    from props import c17_control as _CT
+    def _fv(twin=False):
+        r_ = _CT.unit_findvar_subscripts(twin); r_.id = "C08.findvar.bad_subscript_reported_not_used"; return r_
+    from props.common import wrap as _wrap0
+    _wrap0(us, "C08.findvar.bad_subscript_reported_not_used", _fv)
     from props import c08_nullguard as NG
     from props.common import wrap as _wrap
     for f in NG.FUNCS:
